@@ -93,21 +93,24 @@ PROPS = {
     ),
     'C01': dict(
         title='pack then unpack returns an equal message',
-        modules=['Pbc.Lemmas.Elem', 'Pbc.Props.C02', 'Pbc.Props.C01'],
+        modules=['Pbc.Lemmas.Elem', 'Pbc.Props.C02', 'Pbc.Props.C01', 'Pbc.Props.C01b'],
         theorems=['Pbc.Lemmas.parseScalar_scalarBytes', 'Pbc.Lemmas.scanKey_keyBytes', 'Pbc.Lemmas.scanLen_lenPrefixed',
                   'Pbc.Lemmas.scalarBytes_scan_varint', 'Pbc.Lemmas.unzigzag32_zigzag32', 'Pbc.Lemmas.unzigzag64_zigzag64',
                   'Pbc.Lemmas.loadLE_le32', 'Pbc.Lemmas.loadLE_le64', 'Pbc.Props.C02.packMsg_length',
                   'Pbc.Props.C01.packMsg_recs', 'Pbc.Props.C01.elemRec_ok', 'Pbc.Props.C01.recsMsg_ok', 'Pbc.Props.C01.scanStep_rec',
-                  'Pbc.Props.C01.scanLoop_recs', 'Pbc.Props.C01.pack_scans'],
+                  'Pbc.Props.C01.scanLoop_recs', 'Pbc.Props.C01.pack_scans',
+                  'Pbc.Props.C01.parseRequired_elem', 'Pbc.Props.C01.parsePacked_elems', 'Pbc.Props.C01.parse_slot', 'Pbc.Props.C01.parse_slots',
+                  'Pbc.Props.C01.roundtrip_level', 'Pbc.Props.C01.roundtrip_partial', 'Pbc.Props.C01.unpack_pack_partial'],
         refine=PACK_LEAVES + PARSE_LEAVES + TABLE_LEAVES,
         cases=[('msg', 300, 5000, []), ('leaf', 20, 200, [])],
         oracle='c01',
     ),
     'C03': dict(
         title='packed bytes are valid protobuf with the same meaning (encoder interop)',
-        modules=['Pbc.Props.C02', 'Pbc.Lemmas.Elem'],
+        modules=['Pbc.Props.C02', 'Pbc.Lemmas.Elem', 'Pbc.Props.C01b'],
         theorems=['Pbc.Props.C02.packMsg_length', 'Pbc.Lemmas.parseScalar_scalarBytes', 'Pbc.Lemmas.scanKey_keyBytes',
-                  'Pbc.Lemmas.scanLen_lenPrefixed', 'Pbc.Lemmas.scalarBytes_scan_varint'],
+                  'Pbc.Lemmas.scanLen_lenPrefixed', 'Pbc.Lemmas.scalarBytes_scan_varint',
+                  'Pbc.Props.C01.roundtrip_partial'],
         refine=PACK_LEAVES + SIZE_LEAVES + TABLE_LEAVES,
         cases=[('enc', 300, 5000, [])], gen=(8, 48),
         oracle='c03', ref=True,
@@ -151,10 +154,11 @@ PROPS = {
     ),
     'C06': dict(
         title='whatever the parser accepts is well-formed, re-serialisable and stable',
-        modules=['Pbc.Props.C02', 'Pbc.Lemmas.Elem', 'Pbc.Props.C01'],
+        modules=['Pbc.Props.C02', 'Pbc.Lemmas.Elem', 'Pbc.Props.C01', 'Pbc.Props.C01b'],
         theorems=['Pbc.Props.C02.packMsg_length', 'Pbc.Props.C02.chunksMsg_flatten', 'Pbc.Props.C02.chunks_total',
                   'Pbc.Lemmas.scanKey_keyBytes', 'Pbc.Lemmas.scanLen_lenPrefixed',
-                  'Pbc.Props.C01.packMsg_recs', 'Pbc.Props.C01.pack_scans'],
+                  'Pbc.Props.C01.packMsg_recs', 'Pbc.Props.C01.pack_scans',
+                  'Pbc.Props.C01.roundtrip_partial'],
         refine=PARSE_LEAVES + PACK_LEAVES + SIZE_LEAVES,
         cases=[('wire', 500, 8000, [])],
         oracle='c06',
